@@ -39,7 +39,7 @@ func init() {
 			for i := range c03Inits() {
 				u = append(u, "init#"+strconv.Itoa(i))
 			}
-			return append(u, "entry-length-residues#0", "entry-length-residues#1")
+			return append(u, "entry-length-residues#0", "entry-length-residues#1", "certificate-kinds#0", "certificate-kinds#1")
 		},
 		Run: c03Run,
 		Bound: func(tier string) map[string]any {
@@ -211,22 +211,50 @@ func normDigits(s string) string {
 // WIN_CERTIFICATE length mod 8 (subject names of length 1..16), once and twice,
 // with and without re-parsing in between.
 func c03Residues(c *hx.Ctx, shard int) {
+	items := make([]c03Signer, 17)
+	for l := 1; l <= 16; l++ {
+		items[l] = c03Signer{keys.Cert(pkix.Name{CommonName: strings.Repeat("n", l)}, big.NewInt(int64(0x900+l)), &keys.K(1).PublicKey, keys.K(1)), 1, fmt.Sprintf("k1, CN of %d chars", l)}
+	}
+	c03CertSweep(c, shard, items, "certificate-size sweep")
+}
+
+type c03Signer struct {
+	cert *x509.Certificate
+	key  int
+	name string
+}
+
+// c03Variety: certificates of every kind for the signing key (own signature algorithm SHA-384/512/PSS,
+// issued by RSA / ECDSA / Ed25519 CAs), and key rollover: two certificates with the same issuer and
+// serial number but different keys signing one after the other (each must verify, in both orders).
+func c03Variety(c *hx.Ctx, shard int) {
+	items := []c03Signer{{}}
+	for i, vc := range keys.Variety(1) {
+		items = append(items, c03Signer{vc, 1, "k1, certificate " + keys.Kinds()[i].Name})
+	}
+	plate := pkix.Name{CommonName: "verif rollover", Organization: []string{"verif"}}
+	rx := keys.Cert(plate, big.NewInt(0x7777), &keys.K(1).PublicKey, keys.K(1))
+	ry := keys.Cert(plate, big.NewInt(0x7777), &keys.K(2).PublicKey, keys.K(2))
+	items = append(items, c03Signer{rx, 1, "k1, rollover certificate"}, c03Signer{ry, 2, "k2, same issuer and serial as the rollover certificate"}, c03Signer{rx, 1, "k1, rollover certificate"})
+	c03CertSweep(c, shard, items, "certificate kinds and key rollover")
+}
+
+// c03CertSweep signs with items[l], then items[l%n+1] (items[0] is unused), with and without
+// re-parsing in between, and checks the well-formedness and verification clauses after each step.
+func c03CertSweep(c *hx.Ctx, shard int, items []c03Signer, label string) {
 	c.NoOnly = true
 	vtime.Set(time.Date(2024, 5, 6, 7, 8, 9, 0, time.UTC))
 	base := pegen.Build(peBaseLayouts()[shard*2])
 	orig := append([]byte{}, base...)
 	digest0, _, _ := refpe.Digest(base)
-	certs := make([]*x509.Certificate, 17)
-	for l := 1; l <= 16; l++ {
-		certs[l] = keys.Cert(pkix.Name{CommonName: strings.Repeat("n", l)}, big.NewInt(int64(0x900+l)), &keys.K(1).PublicKey, keys.K(1))
-	}
+	nItems := len(items) - 1
 	residues := map[int]bool{}
-	for l := 1; l <= 16; l++ {
+	for l := 1; l <= nItems; l++ {
 		for _, reparse := range []bool{false, true} {
 			c.Next()
 			c.Count("transitions", 2)
 			c.Count("traces", 1)
-			hist := []string{fmt.Sprintf("image: layout%d", shard*2), fmt.Sprintf("Sign(k1, CN of %d chars)", l)}
+			hist := []string{fmt.Sprintf("image: layout%d", shard*2), fmt.Sprintf("Sign(%s)", items[l].name)}
 			w := &c03World{signers: map[int]int{}, orig: orig, digest0: digest0}
 			var v string
 			var d map[string]any
@@ -237,7 +265,7 @@ func c03Residues(c *hx.Ctx, shard int) {
 					v = "well-formed image rejected"
 					return
 				}
-				sig, err := w.p.Sign(memoSignerFor(1), certs[l])
+				sig, err := w.p.Sign(memoSignerFor(items[l].key), items[l].cert)
 				if err != nil {
 					v = "Sign fails"
 					return
@@ -254,9 +282,9 @@ func c03Residues(c *hx.Ctx, shard int) {
 						return
 					}
 				}
-				l2 := l%16 + 1
-				hist = append(hist, fmt.Sprintf("Sign(k1, CN of %d chars)", l2))
-				if _, err = w.p.Sign(memoSignerFor(1), certs[l2]); err != nil {
+				l2 := l%nItems + 1
+				hist = append(hist, fmt.Sprintf("Sign(%s)", items[l2].name))
+				if _, err = w.p.Sign(memoSignerFor(items[l2].key), items[l2].cert); err != nil {
 					v = "second Sign fails"
 					return
 				}
@@ -271,7 +299,7 @@ func c03Residues(c *hx.Ctx, shard int) {
 					return
 				}
 				for _, obj := range []*authenticode.PECOFFBinary{w.p, rp} {
-					for _, ct := range []*x509.Certificate{certs[l], certs[l2]} {
+					for _, ct := range []*x509.Certificate{items[l].cert, items[l2].cert} {
 						if ok, err := obj.Verify(ct); !ok {
 							v, d = "Verify against a certificate that signed returns false", map[string]any{"error": fmt.Sprint(err)}
 							return
@@ -289,7 +317,7 @@ func c03Residues(c *hx.Ctx, shard int) {
 				c.Violation("C03 signing history ends in "+pn.String(), map[string]any{"history": hist})
 			case v != "":
 				c.Outcome("state-violation")
-				c.Violation("C03 "+v+" [certificate-size sweep]", map[string]any{"history": hist, "detail": d})
+				c.Violation("C03 "+v+" ["+label+"]", map[string]any{"history": hist, "detail": d})
 			default:
 				c.Outcome("state-ok")
 				c.Count("states", 2)
@@ -307,6 +335,10 @@ func c03Residues(c *hx.Ctx, shard int) {
 func c03Run(c *hx.Ctx, tier, unit string) {
 	c.NoOnly = true
 	vtime.Set(time.Date(2024, 5, 6, 7, 8, 9, 0, time.UTC))
+	if strings.HasPrefix(unit, "certificate-kinds#") {
+		c03Variety(c, int(unit[len(unit)-1]-'0'))
+		return
+	}
 	if strings.HasPrefix(unit, "entry-length-residues#") {
 		c03Residues(c, int(unit[len(unit)-1]-'0'))
 		return
